@@ -43,6 +43,8 @@ type ConsPlan struct {
 	Stream int    `json:"stream"`
 	Proto  string `json:"proto"` // rtmp | flv | wsflv | ts | wsts
 	Query  string `json:"query,omitempty"`
+	// Keepalive: an RTSP player sends OPTIONS now and then while it plays (answers land between interleaved frames)
+	Keepalive bool `json:"keepalive,omitempty"`
 }
 
 type RelayOp struct {
@@ -346,6 +348,9 @@ func GenRelayPlan(r *sim.Rng, prof RelayProfile) RelayPlan {
 	nCons := 1 + r.Intn(prof.MaxCons)
 	for c := 0; c < nCons; c++ {
 		cp := ConsPlan{Stream: r.Intn(nStreams), Proto: prof.Protos[r.Intn(len(prof.Protos))]}
+		if cp.Proto == "rtsp" {
+			cp.Keepalive = r.Bool(0.4)
+		}
 		pl.Cons = append(pl.Cons, cp)
 		lane := []RelayOp{{Kind: "join", Cons: c}}
 		if r.Bool(prof.LeaveProb) {
